@@ -289,7 +289,17 @@ class AppGen:
                     out.append(f"padbtn {g} {b} {1 - cur}")
             for x in sorted(pad_axes):
                 if r.random() < p.toggle_p * 0.7:
-                    out.append(f"padaxis {g} {x} {q(r.choice(AXIS_VALS + [Fr(0)] * 6))}")
+                    val = r.choice(AXIS_VALS + [Fr(0)] * 6)
+                    axes = state.setdefault("padaxis", {})
+                    if val != 0:
+                        # unclaimed corner (C15): two gamepads non-zero on one axis of an unrestricted context ->
+                        # keep at most one gamepad non-zero per axis
+                        for (g2, x2), v2 in list(axes.items()):
+                            if x2 == x and g2 != g and v2 != 0:
+                                axes[(g2, x2)] = Fr(0)
+                                out.append(f"padaxis {g2} {x2} 0")
+                    axes[(g, x)] = val
+                    out.append(f"padaxis {g} {x} {q(val)}")
         return out
 
     def lifecycle_op(self, world, ents):
